@@ -123,6 +123,26 @@ def handle (j : Json) : Json :=
   | "pybind" =>
     let s := parseSig (obj j "sig")
     jopt jnat (pyBind s ((arr j "prev").map parseCArg) (parseCArg (obj j "cur")))
+  | "fwd" =>
+    -- a wrapper whose `**kwargs` is forwarded to the given callees (one level)
+    let outer := parseSig (obj j "outer")
+    let callees := (arr j "callees").map fun c =>
+      calleeParams (bool c "bound") (nat c "count") ((strs c "keys").map String.toList)
+        (paramNames (parseSig (obj c "sig")).toks)
+    let ps0 := processParamsKw (paramNames outer.toks) callees
+    let ps := if bool j "bound" then removeBoundParam ps0 else ps0
+    jobj [("params", jarr (ps.map encParam)),
+          ("to_string", jchars (sigToString (chars j "fname") ps (chars j "ret")))]
+  | "pyaccepts" =>
+    let s := parseSig (obj j "sig")
+    let kws := (strs j "kws").map String.toList
+    jobj [("accepts", jbool (pyAccepts s (nat j "npos") kws)),
+          ("wrapper_runs", jbool (pyRunsKwWrapper s (nat j "npos") kws)),
+          ("forwarded_accepts", jbool (pyAccepts (kwForwarded s) (nat j "npos") kws))]
+  | "pybound" =>
+    -- the Python side of bound_eq_pyBound: parameters of `inspect.signature` of the bound method
+    let s := parseSig (obj j "sig")
+    jopt (fun (s' : Sig) => jarr (s'.params.map fun n => jarr [jchars n.name, jnat n.kind.toNat])) (pyBound s)
   | "doc" =>
     jchars (docAssemble (joinLines ((strs j "sigs").map String.toList)) (chars j "doc"))
   | op => jobj [("error", jstr ("unknown op " ++ op))]
